@@ -161,3 +161,37 @@ Proof.
   - (* User / User *)
     apply N.eqb_eq in E. subst. solve_agree.
 Qed.
+
+(* ---- Python equality is symmetric on the integer fragment -------------------------------- *)
+
+Lemma all2_sym_ext : forall (P : val -> bool) (f : val -> val -> bool) l1,
+  Forall (fun x => forall y, P x = true -> P y = true -> f x y = f y x) l1 ->
+  forall l2, forallb P l1 = true -> forallb P l2 = true -> all2 f l1 l2 = all2 f l2 l1.
+Proof.
+  intros P f l1 H. induction H as [|x t Hx Ht IH]; intros l2 H1 H2; destruct l2 as [|y t2]; cbn; try reflexivity.
+  cbn in H1, H2. apply andb_true_iff in H1. apply andb_true_iff in H2.
+  destruct H1 as [Px Pt]. destruct H2 as [Py Pt2].
+  rewrite (Hx y Px Py). rewrite (IH t2 Pt Pt2). reflexivity.
+Qed.
+
+Lemma bytes_eqb_sym : forall a b, bytes_eqb a b = bytes_eqb b a.
+Proof.
+  intros a b. destruct (bytes_eqb a b) eqn:E.
+  - apply bytes_eqb_eq in E. subst. symmetry. apply bytes_eqb_refl.
+  - destruct (bytes_eqb b a) eqn:E2; [|reflexivity].
+    apply bytes_eqb_eq in E2. subst. rewrite bytes_eqb_refl in E. discriminate.
+Qed.
+
+Theorem py_eq_sym_nf : forall a b, nf_key a = true -> nf_key b = true -> py_eq a b = py_eq b a.
+Proof.
+  induction a using val_ind'; intros b0 Ha Hb; cbn in Ha; try discriminate;
+    destruct b0; cbn in Hb; try discriminate; cbn [py_eq];
+    try reflexivity; try apply bytes_eqb_sym;
+    try (cbn; rewrite ?rnum_eqb_int, ?andb_true_r; apply Z.eqb_sym).
+  - apply (all2_sym_ext nf_key); assumption.
+  - rewrite (bytes_eqb_sym m m0), (bytes_eqb_sym n n0). reflexivity.
+  - rewrite (bytes_eqb_sym m m0), (bytes_eqb_sym n n0).
+    rewrite (all2_sym_ext nf_key py_eq l H args Ha Hb). reflexivity.
+  - apply IHa; assumption.
+  - apply N.eqb_sym.
+Qed.
